@@ -104,6 +104,11 @@ def run(ctx):
                       "ChecksumMismatch is taken exactly when -(stored magic + arch + length) mod 2^32 != stored checksum, i.e. the four words do not sum to 0",
                       A.site(e2.bb), how=G.show(p2)[:300], why=G.show(p2)[:600])
     c02.check_ref_from_ptr(ctx, F, BH, 8)
+    # the memory-error exit is the chain of C14 for this header type: `ShorterThanHeader` exactly for a slice (= declared length)
+    # below the 16 bytes of the basic header, and so on - those premise instances are re-decided here (seed C10-7b: a validating
+    # constructor that tested `len < 8` for every header type passed C10 while C14's rule was one-directional)
+    if not getattr(ctx, "_imported", False):
+        ctx.import_prop("C14", only=lambda o: "<Multiboot2BasicHeader>" in o.key, label="slice validation for Multiboot2BasicHeader")
     # who constructs the wrapper: only load's success exit - the premise of the size invariant I-MH used by its methods
     from .. import inline as INL_
     ctors_, bad_ = INL_.constructors_of(F, "multiboot2_header::header::Multiboot2Header", ("load",))
